@@ -165,8 +165,13 @@ def create_table_sql(t):
 
 
 def index_sql(tname, ix):
-    return "CREATE %sINDEX %s ON %s (%s)" % ("UNIQUE " if ix["unique"] else "", q(ix["name"]), q(tname),
-                                             ", ".join(q(c) for c in ix["cols"]))
+    return "CREATE %sINDEX %s ON %s (%s)%s" % ("UNIQUE " if ix["unique"] else "", q(ix["name"]), q(tname),
+                                               ", ".join(q(c) for c in ix["cols"]),
+                                               " WHERE %s" % ix["where"] if ix.get("where") else "")
+
+
+def norm_where(w):
+    return None if w is None else " ".join(str(w).split())
 
 
 def sa_table(t, metadata=None):
@@ -187,7 +192,8 @@ def sa_table(t, metadata=None):
     for f in t["fks"]:
         args.append(sa.ForeignKeyConstraint(f["cols"], ["%s.%s" % (f["rtable"], c) for c in f["rcols"]], name=f["name"]))
     for ix in t["indexes"]:
-        args.append(sa.Index(ix["name"], *ix["cols"], unique=ix["unique"]))
+        ikw = {"sqlite_where": sa.text(ix["where"])} if ix.get("where") else {}
+        args.append(sa.Index(ix["name"], *ix["cols"], unique=ix["unique"], **ikw))
     return sa.Table(t["name"], m, *args)
 
 
@@ -233,8 +239,20 @@ def _observe_table(conn, name, universe=()):
                    "rcols": [c.strip().strip('"') for c in m.group(4).split(",")]}
                   for m in re.finditer(r"(?:CONSTRAINT (\S+) )?FOREIGN KEY\s*\(([^)]*)\) REFERENCES (\S+) \(([^)]*)\)", sql)),
                  key=lambda f: (f["name"] or "", f["cols"]))
-    indexes = sorted(({"name": i["name"], "cols": list(i["column_names"]), "unique": bool(i["unique"])}
-                      for i in insp.get_indexes(name)), key=lambda i: i["name"])
+    # the WHERE predicate of a partial index is read from the stored CREATE INDEX text
+    isql = {r[0]: r[1] or "" for r in conn.exec_driver_sql(
+        "SELECT name, sql FROM sqlite_master WHERE type='index' AND tbl_name=?", (name,)).fetchall()}
+
+    def where_of(iname):
+        m = re.search(r"\)\s*WHERE\s+(.*)$", " ".join(isql.get(iname, "").split()), re.I)
+        return norm_where(m.group(1)) if m else None
+
+    indexes = []
+    for i in insp.get_indexes(name):
+        w = where_of(i["name"])
+        indexes.append({"name": i["name"], "cols": list(i["column_names"]), "unique": bool(i["unique"]), "where": w,
+                        "where_mentions": mentions_of(w, names) if w else [], "where_pred": parse_pred(w) if w else None})
+    indexes.sort(key=lambda i: i["name"])
     rows = [[enc_value(v) for v in r] for r in conn.exec_driver_sql("SELECT * FROM %s" % q(name)).fetchall()]
     return {"name": name, "cols": cols, "pk": pk, "uniques": uniques, "checks": checks, "fks": fks,
             "indexes": indexes, "rows": rows}
@@ -287,9 +305,10 @@ def abstract_stmt(sql, tname):
         return "dropTmp"
     if re.match(r"ALTER TABLE %s RENAME TO %s$" % (qtmp, qt), s):
         return "renameTmp"
-    m = re.match(r"CREATE (UNIQUE )?INDEX (\S+) ON %s \((.*)\)$" % qt, s)
+    m = re.match(r"CREATE (UNIQUE )?INDEX (\S+) ON %s \((.*?)\)( WHERE (.*))?$" % qt, s)
     if m:
-        return "createIndex:%s:%s:%s" % (m.group(2), ",".join(c.strip() for c in m.group(3).split(",")), "u" if m.group(1) else "n")
+        return "createIndex:%s:%s:%s%s" % (m.group(2), ",".join(c.strip() for c in m.group(3).split(",")), "u" if m.group(1) else "n",
+                                           ":where=" + norm_where(m.group(5)) if m.group(4) else "")
     m = re.match(r"ALTER TABLE %s ADD COLUMN (\S+) " % qt, s + " ")
     if m:
         return "alterAdd:%s" % m.group(1)
@@ -365,7 +384,8 @@ def apply_op(b, o):
     elif k == "drop_constraint":
         b.drop_constraint(o["name"], type_=o.get("type"))
     elif k == "create_index":
-        b.create_index(o["name"], o["cols"], unique=o["unique"])
+        ikw = {"sqlite_where": sa.text(o["where"])} if o.get("where") else {}
+        b.create_index(o["name"], o["cols"], unique=o["unique"], **ikw)
     elif k == "drop_index":
         b.drop_index(o["name"])
     else:
@@ -401,6 +421,8 @@ def exc_kind(e):
         return "operational:" + msg.splitlines()[0][:80]
     if n == "KeyError":
         return "keyError"
+    if n == "NoSuchTableError":
+        return "noSuchTable"
     if n == "ValueError":
         if "No such constraint" in msg:
             return "noSuchConstraint"
@@ -485,7 +507,9 @@ def run_batch(db, ops, recreate="always", copy_from=False, fault=None, scope="no
         ctx = MigrationContext.configure(conn, opts={} if tddl is None else {"transactional_ddl": tddl})
         op = Operations(ctx)
         kw = {"recreate": recreate}
-        if copy_from:
+        if isinstance(copy_from, dict):
+            kw["copy_from"] = sa_table(copy_from)      # an explicit Table (the table under the original name may be gone)
+        elif copy_from:
             kw["copy_from"] = sa_table(res["before"]["orig"])
 
         def body():
